@@ -15,6 +15,12 @@
         variants) are exactly the ones the Lean `importDoc` documents as "ignored";
     (3) the record fields of the Lean `…Doc` types are the JSON keys of the Go struct.
 
+  The table has one entry per function that goes through `encoding/json` or touches a mirror field.
+  Calls to UNEXPORTED functions of the package are expanded by the extractor into the caller's entry
+  (sets, reads, marshal calls, receiver wiring), so the entries of the exported `Export` / `Import`
+  methods do not change when a private helper is extracted from them; unexported functions that cannot
+  be expanded (called through an interface) keep an entry and are listed in `callees`.
+
   What is proved, and how far it reaches
   * (1), (2) and the receiver-field wiring (`C10_wiring_*`) are theorems by `decide` about the
     regenerated table, i.e. about the CURRENT Go source as the syntactic extractor reads it; they
@@ -109,13 +115,22 @@ theorem C10_table_understood :
     jsonStructs.all (fun s => !s.unknown && s.fields.all (fun f => !f.unknown)) = true ∧
     jsonUses.all (fun u => !u.unknown) = true := by decide
 
-/-- the functions of the package that go through `encoding/json` are the ten Export / Import pairs
-    (BloomFilter's serve both the in-memory and the Redis filter) and the two BitSetRedis helpers, which
-    marshal a plain `string` (base64 text), not a struct -/
+/-- is `fn` listed among the `callees` of an exported entry -/
+def reachedFromExported (fn : String) : Bool :=
+  (jsonUses.filter (·.exported)).any (fun u => u.callees.contains fn)
+
+/-- The EXPORTED functions of the package that go through `encoding/json` or touch a field of a mirror
+    struct — directly or through unexported helpers, whose bodies the extractor expands into the entry of
+    their caller — are the ten Export / Import pairs (BloomFilter's serve both the in-memory and the Redis
+    filter), each moving exactly its own mirror struct.
+    Every other entry of the table is an unexported function that could not be expanded (the two
+    `BitSetRedis` methods, called through the `IBitSet` interface): it is reached from an exported entry
+    (`callees`), marshals / unmarshals a plain `string` (base64 text), and sets / reads no mirror field.
+    So a new private helper of an Export / Import needs no change here; a new exported function, or an
+    unexported one that nothing exported reaches, that marshals / unmarshals or touches a mirror struct does. -/
 theorem C10_table_covers :
-    (jsonUses.filter (fun u => !(u.marshals.isEmpty && u.unmarshals.isEmpty))).map (fun u => (u.fn, u.marshals, u.unmarshals)) =
-      [("BitSetRedis.marshal", ["string"], []), ("BitSetRedis.unmarshal", [], ["string"]),
-       ("BloomFilter.Export", ["bloomFilterType"], []), ("BloomFilter.Import", [], ["bloomFilterType"]),
+    (jsonUses.filter (·.exported)).map (fun u => (u.fn, u.marshals, u.unmarshals)) =
+      [("BloomFilter.Export", ["bloomFilterType"], []), ("BloomFilter.Import", [], ["bloomFilterType"]),
        ("CountMinSketch.Export", ["countMinSketchJSON"], []), ("CountMinSketch.Import", [], ["countMinSketchJSON"]),
        ("CountMinSketchRedis.Export", ["countMinSketchJSON"], []), ("CountMinSketchRedis.Import", [], ["countMinSketchJSON"]),
        ("CuckooFilter.Export", ["cuckooFilterMemJSON"], []), ("CuckooFilter.Import", [], ["cuckooFilterMemJSON"]),
@@ -124,8 +139,9 @@ theorem C10_table_covers :
        ("HyperLogLogRedis.Export", ["hyperLogLogJSON"], []), ("HyperLogLogRedis.Import", [], ["hyperLogLogJSON"]),
        ("TopK.Export", ["topKJSON"], []), ("TopK.Import", [], ["topKJSON"]),
        ("TopKRedis.Export", ["topKJSON"], []), ("TopKRedis.Import", [], ["topKJSON"])] ∧
-    -- and no other function of the package touches a field of a mirror struct
-    jsonUses.all (fun u => !(u.marshals.isEmpty && u.unmarshals.isEmpty)) = true ∧
+    (jsonUses.filter (fun u => !u.exported)).all (fun h =>
+      reachedFromExported h.fn && h.sets.isEmpty && h.reads.isEmpty &&
+      !(h.marshals ++ h.unmarshals).isEmpty && (h.marshals ++ h.unmarshals).all (· == "string")) = true ∧
     jsonStructs.map (·.name) =
       ["bloomFilterType", "bucketMemJSON", "bucketRedisJSON", "countMinSketchJSON", "cuckooFilterMemJSON",
        "cuckooFilterRedisJSON", "heapElementJSON", "hyperLogLogJSON", "topKJSON"] := by decide
